@@ -6,11 +6,11 @@ class TxSpec(Spec):
     property_id = 'C09'
     world = 'txstate'
     isolated_mutants = True
-    shrink_groups = (('nsteps', 'stmt_kind', ()), ('nsteps_long', 'stmt_kind', ()))
+    shrink_groups = (('nsteps', 'stmt_kind', ()), ('nsteps_long', 'stmt_kind', ()), ('nsteps_deep', 'stmt_kind', ()))
     wall_cap = {'quick': 1200, 'thorough': 7200}
     strata = {
-        'quick': [('core', 12), ('nofault', 6), ('exotic', 2), ('pooled', 1), ('pooled_nofault', 1)],
-        'thorough': [('core', 12), ('nofault', 6), ('exotic', 2), ('pooled', 2), ('pooled_nofault', 1)],
+        'quick': [('core', 10), ('nofault', 5), ('deep', 4), ('exotic', 2), ('pooled', 1), ('pooled_nofault', 1)],
+        'thorough': [('core', 10), ('nofault', 5), ('deep', 4), ('exotic', 2), ('pooled', 2), ('pooled_nofault', 1)],
     }
     runs = {'quick': 300000, 'thorough': 5000000}
     observe_only_strata = ('exotic',)
